@@ -441,40 +441,56 @@ func c03Helper(c *kit.Ctx, m *storeModel, hm *hashModel, r4 *kit.Rule) {
 		return
 	}
 	e := kit.ObjOf(info, loop.Value)
-	isCacheAt := func(x ast.Expr) bool {
+	st := &kit.Std{F: f}
+	// helpers of the package are evaluated inline: a predicate such as
+	// hasUpstream(e.Up) or a seeding helper is as transparent as the inline code
+	st.ShouldInline = func(cf *kit.Func, call *ast.CallExpr) bool {
+		return cf != f && !hm.isEntry(cf) && txParamOf(cf) == nil
+	}
+	isElemSel := func(x ast.Expr, field string) bool {
+		sel, ok := ast.Unparen(st.Resolve(x)).(*ast.SelectorExpr)
+		return ok && sel.Sel.Name == field && kit.ObjOf(info, st.Resolve(sel.X)) == e
+	}
+	xt := &xorTrack{st: st, present: map[types.Object]bool{}}
+	xt.isCell = func(x ast.Expr) bool {
 		ix, ok := ast.Unparen(x).(*ast.IndexExpr)
-		if !ok || kit.ObjOf(info, ix.X) != types.Object(cache) {
-			return false
+		return ok && st.ObjOf(ix.X) == types.Object(cache) && isElemSel(ix.Index, "ID")
+	}
+	xt.isKey = func(x ast.Expr) bool { return isElemSel(x, "ID") }
+	xt.isCache = func(o types.Object) bool { return o == types.Object(cache) }
+	xt.sym = func(x ast.Expr) string {
+		switch {
+		case isElemSel(x, "Hash"):
+			return "H"
+		case st.ObjOf(x) == types.Object(delta):
+			return "D"
 		}
-		sel, ok := ast.Unparen(ix.Index).(*ast.SelectorExpr)
-		return ok && sel.Sel.Name == "ID" && kit.ObjOf(info, sel.X) == e
+		return ""
+	}
+	xt.initCell = func(s kit.S) string {
+		if s.Get("a:present") == "T" {
+			return "{O}" // the value an earlier path of this walk left in the cache
+		}
+		return "{}" // reading a missing key yields zero
 	}
 	// `_, ok := cache[e.ID]`: ok answers "already in the cache"
-	presentVars := map[types.Object]bool{}
 	ast.Inspect(f.Body, func(n ast.Node) bool {
-		if as, ok := n.(*ast.AssignStmt); ok && len(as.Lhs) == 2 && len(as.Rhs) == 1 && isCacheAt(as.Rhs[0]) {
+		if as, ok := n.(*ast.AssignStmt); ok && len(as.Lhs) == 2 && len(as.Rhs) == 1 && xt.isCell(as.Rhs[0]) {
 			if o := kit.ObjOf(info, as.Lhs[1]); o != nil {
-				presentVars[o] = true
+				xt.present[o] = true
 			}
 		}
 		return true
 	})
-	st := &kit.Std{F: f}
 	// atoms: presence in cache, sentinel test on e.Up
 	st.Eval.Atom = func(x ast.Expr) (string, bool, bool) {
-		if o := kit.ObjOf(info, x); o != nil && presentVars[o] {
+		if o := kit.ObjOf(info, x); o != nil && xt.present[o] {
 			return "present", false, true
 		}
-		a, b, op, ok := kit.CmpAtom(x)
-		if ok && (op == token.EQL || op == token.NEQ) {
-			isUp := func(y ast.Expr) bool {
-				sel, ok := ast.Unparen(y).(*ast.SelectorExpr)
-				return ok && sel.Sel.Name == "Up" && kit.ObjOf(info, sel.X) == e
-			}
-			isConst := func(y ast.Expr) bool { _, ok := kit.ConstString(info, y); return ok }
-			if (isUp(a) && isConst(b)) || (isUp(b) && isConst(a)) {
-				return "sentinel", op == token.NEQ, true
-			}
+		isUp := func(y ast.Expr) bool { return isElemSel(y, "Up") }
+		isConst := func(y ast.Expr) bool { _, ok := kit.ConstString(info, y); return ok }
+		if neg, ok := eqAtom(x, isUp, isConst); ok {
+			return "sentinel", neg, true
 		}
 		return "", false, false
 	}
@@ -482,15 +498,6 @@ func c03Helper(c *kit.Ctx, m *storeModel, hm *hashModel, r4 *kit.Rule) {
 	st.Eval.OnUnknown = func(x ast.Expr) {
 		if loop.Body.Pos() <= x.Pos() && x.End() <= loop.Body.End() {
 			if _, _, isErr := kit.ErrCheck(info, x); !isErr {
-				// `_, ok := cache[e.ID]; !ok` is the seeding idiom: fine
-				if id, ok := ast.Unparen(x).(*ast.Ident); ok && id.Name != "" {
-					return
-				}
-				if u, ok := ast.Unparen(x).(*ast.UnaryExpr); ok && u.Op == token.NOT {
-					if _, ok := ast.Unparen(u.X).(*ast.Ident); ok {
-						return
-					}
-				}
 				unrelated = f.Str(x)
 			}
 		}
@@ -499,36 +506,11 @@ func c03Helper(c *kit.Ctx, m *storeModel, hm *hashModel, r4 *kit.Rule) {
 		if s.Get("it") != "1" {
 			return []kit.S{s}
 		}
-		if as, ok := n.(*ast.AssignStmt); ok && len(as.Lhs) == 1 && isCacheAt(as.Lhs[0]) {
-			switch {
-			case as.Tok == token.XOR_ASSIGN && kit.ObjOf(info, as.Rhs[0]) == types.Object(delta):
-				if s.Get("x") == "" {
-					return []kit.S{s.Set("x", "1")}
-				}
-				return []kit.S{s.Set("x", "2+")}
-			case as.Tok == token.ASSIGN:
-				// seeding from e.Hash, or cache[e.ID] = cache[e.ID] ^ delta
-				if sel, ok := ast.Unparen(as.Rhs[0]).(*ast.SelectorExpr); ok && sel.Sel.Name == "Hash" && kit.ObjOf(info, sel.X) == e {
-					if s.Get("x") != "" {
-						return []kit.S{s.Set("seed", "late")}
-					}
-					return []kit.S{s.Set("seed", "1")}
-				}
-				if be, ok := ast.Unparen(as.Rhs[0]).(*ast.BinaryExpr); ok && be.Op == token.XOR &&
-					((isCacheAt(be.X) && kit.ObjOf(info, be.Y) == types.Object(delta)) || (isCacheAt(be.Y) && kit.ObjOf(info, be.X) == types.Object(delta))) {
-					if s.Get("x") == "" {
-						return []kit.S{s.Set("x", "1")}
-					}
-					return []kit.S{s.Set("x", "2+")}
-				}
-				return []kit.S{s.Set("seed", "other")}
-			}
-		}
-		return []kit.S{s}
+		return []kit.S{xt.node(n, s)}
 	}
 	badRec := ""
 	st.OnCall = func(call *ast.CallExpr, n ast.Node, s kit.S) []kit.S {
-		if s.Get("it") != "1" || f.CalleeFunc(call) != f {
+		if s.Get("it") != "1" || st.Cur().CalleeFunc(call) != f {
 			return nil
 		}
 		ps := f.Params()
@@ -538,11 +520,10 @@ func c03Helper(c *kit.Ctx, m *storeModel, hm *hashModel, r4 *kit.Rule) {
 			}
 			a := call.Args[i]
 			if p == idp {
-				sel, ok := ast.Unparen(a).(*ast.SelectorExpr)
-				if !ok || sel.Sel.Name != "Up" || kit.ObjOf(info, sel.X) != e {
+				if !isElemSel(a, "Up") {
 					badRec = "the recursive call walks to `" + f.Str(a) + "`, expected the edge's upper end"
 				}
-			} else if kit.ObjOf(info, a) != types.Object(p) {
+			} else if st.ObjOf(a) != types.Object(p) {
 				badRec = "the recursive call passes `" + f.Str(a) + "` for `" + p.Name() + "` (must be forwarded unchanged)"
 			}
 		}
@@ -551,45 +532,40 @@ func c03Helper(c *kit.Ctx, m *storeModel, hm *hashModel, r4 *kit.Rule) {
 	st.OnBranch = func(br kit.Branch, s kit.S) (t, fl []kit.S, handled bool) {
 		if br.Kind == kit.BrRange && br.Range == loop {
 			if !s.Has("it") {
-				return []kit.S{s.Set("it", "1")}, nil, true
+				return []kit.S{s.Set("it", "1").Del("cell")}, nil, true
 			}
 			return nil, []kit.S{s.Set("it", "done")}, true
 		}
 		return nil, nil, false
 	}
-	badX, badR := "", ""
+	badX, badR, undec := "", "", ""
 	n := 0
-	var allExits []kit.Exit
 	for _, present := range []string{"F", "T"} {
 		res := c.P.Graph(f).Run(kit.NewS().Set("a:sentinel", "F").Set("a:present", present), st.Client())
 		c.AddValuations(1)
+		want := map[string]string{"F": "{D,H}", "T": "{D,O}"}[present]
 		for _, ex := range res.Exits {
 			if ex.State.Get("it") != "done" || ex.Return == nil || st.ReturnsNil(ex.Return, ex.State) == "nonnil" {
 				continue
 			}
-			// seeding must follow the presence answer
+			n++
+			got := xt.cell(ex.State)
 			switch {
-			case present == "F" && ex.State.Get("seed") == "" && ex.State.Get("x") != "":
+			case got == want:
+			case got == "?":
+				undec = "the value stored for the edge is computed in a way the XOR evaluator cannot follow"
+			case present == "F" && got == "{D}":
 				badX = "an edge met for the first time in this walk is XORed without first being seeded from its stored hash: the stored hash is replaced by the bare delta"
-			case present == "T" && ex.State.Get("seed") == "1":
+			case present == "T" && got == "{D,H}":
 				badX = "an edge already in the cache is re-seeded from the stored hash: the delta of the first path through it is lost (diamonds)"
+			case got == "{H}" || got == "{O}" || got == "{}":
+				badX = "an iteration can finish without the delta being XORed (exactly once) into the edge's hash"
+			default:
+				badX = "after a visit the cached hash of the edge is " + xorWords(got) + ", expected " + xorWords(want)
 			}
-			allExits = append(allExits, ex)
-		}
-	}
-	for _, ex := range allExits {
-		n++
-		switch ex.State.Get("x") {
-		case "":
-			badX = "an iteration can finish without XORing the delta into the edge's hash"
-		case "2+":
-			badX = "the delta is XORed twice into the same edge in one visit"
-		}
-		if ex.State.Get("seed") == "late" || ex.State.Get("seed") == "other" {
-			badX = "the cached hash is (re)seeded after/other than from the stored hash"
-		}
-		if ex.State.Get("rec") != "1" {
-			badR = "an iteration over a non-sentinel edge can finish without recursing upwards: ancestors above it keep a stale hash"
+			if ex.State.Get("rec") != "1" {
+				badR = "an iteration over a non-sentinel edge can finish without recursing upwards: ancestors above it keep a stale hash"
+			}
 		}
 	}
 	if unrelated != "" && (badX != "" || badR != "") {
@@ -602,8 +578,10 @@ func c03Helper(c *kit.Ctx, m *storeModel, hm *hashModel, r4 *kit.Rule) {
 	default:
 		if badX != "" {
 			oi.Violation("%s", badX)
+		} else if undec != "" {
+			oi.Undecided("%s", undec)
 		} else {
-			oi.OK("one XOR per visit, seeded from the stored hash")
+			oi.OK("first visit: stored hash ^ delta; later visits: cached value ^ delta")
 		}
 		if badRec != "" {
 			badR = badRec
@@ -1086,50 +1064,43 @@ func c03EntryShape(c *kit.Ctx, m *storeModel, hm *hashModel, r6 *kit.Rule) {
 			o.Undecided("roles not found (edge id parameter %v, delta %v, start %v, scanned hash %v, helper call %v)", idp != nil, delta != nil, start != nil, hashVar != nil, hcall != nil)
 			continue
 		}
-		isOwn := func(x ast.Expr) bool {
+		st := &kit.Std{F: en}
+		st.ShouldInline = func(cf *kit.Func, call *ast.CallExpr) bool {
+			return cf != hm.helper && !hm.isEntry(cf) && txParamOf(cf) == nil
+		}
+		xt := &xorTrack{st: st, present: map[types.Object]bool{}}
+		xt.isKey = func(x ast.Expr) bool { return st.ObjOf(x) == types.Object(idp) }
+		xt.isCell = func(x ast.Expr) bool {
 			ix, ok := ast.Unparen(x).(*ast.IndexExpr)
-			if !ok || kit.ObjOf(info, ix.Index) != types.Object(idp) {
+			if !ok || !xt.isKey(ix.Index) {
 				return false
 			}
 			_, isMap := info.TypeOf(ix.X).Underlying().(*types.Map)
 			return isMap
 		}
-		st := &kit.Std{F: en}
+		xt.sym = func(x ast.Expr) string {
+			if st.ObjOf(x) == types.Object(delta) {
+				return "D"
+			}
+			return ""
+		}
+		xt.initCell = func(kit.S) string { return "{}" }
 		st.Eval.Atom = func(x ast.Expr) (string, bool, bool) {
-			isStart := func(y ast.Expr) bool { return kit.ObjOf(info, y) == types.Object(start) }
+			isStart := func(y ast.Expr) bool { return st.ObjOf(y) == types.Object(start) }
 			isConst := func(y ast.Expr) bool { _, ok := kit.ConstString(info, y); return ok }
 			if neg, ok := eqAtom(x, isStart, isConst); ok {
 				return "sent", neg, true
 			}
 			return "", false, false
 		}
-		st.OnNode = func(n ast.Node, s kit.S) []kit.S {
-			as, ok := n.(*ast.AssignStmt)
-			if !ok || len(as.Lhs) != 1 || !isOwn(as.Lhs[0]) {
-				return []kit.S{s}
-			}
-			rhs := ast.Unparen(as.Rhs[0])
-			switch {
-			case as.Tok == token.ASSIGN:
-				if be, ok := rhs.(*ast.BinaryExpr); ok && be.Op == token.XOR &&
-					((kit.ObjOf(info, be.X) == hashVar && kit.ObjOf(info, be.Y) == types.Object(delta)) || (kit.ObjOf(info, be.Y) == hashVar && kit.ObjOf(info, be.X) == types.Object(delta))) {
-					return []kit.S{s.Set("own", "1")}
-				}
-				if kit.ObjOf(info, rhs) == hashVar {
-					return []kit.S{s.Set("own", "seeded")}
-				}
-				return []kit.S{s.Set("own", "bad")}
-			case as.Tok == token.XOR_ASSIGN && kit.ObjOf(info, rhs) == types.Object(delta):
-				if s.Get("own") == "seeded" {
-					return []kit.S{s.Set("own", "1")}
-				}
-				return []kit.S{s.Set("own", "bad")}
-			}
-			return []kit.S{s.Set("own", "bad")}
-		}
+		st.OnNode = func(n ast.Node, s kit.S) []kit.S { return []kit.S{xt.node(n, s)} }
 		st.OnCall = func(call *ast.CallExpr, n ast.Node, s kit.S) []kit.S {
 			if call == hcall {
-				return []kit.S{s.Set("hc", "1")}
+				return []kit.S{s.Set("hc", "1").Set("hcCell", xt.cell(s))}
+			}
+			// the stored hash of the edge: destination of the Scan of `SELECT hash … WHERE id = ?`
+			if kit.CallIs(info, call, "database/sql.(*Row).Scan", "database/sql.(*Rows).Scan") && len(call.Args) == 1 {
+				return []kit.S{xt.scanned(call, "H", s)}
 			}
 			return nil
 		}
@@ -1138,19 +1109,27 @@ func c03EntryShape(c *kit.Ctx, m *storeModel, hm *hashModel, r6 *kit.Rule) {
 			c.Fatalf("R6 entry overflow")
 		}
 		c.AddValuations(1)
-		bad := ""
+		bad, undec := "", ""
 		nOK := 0
 		for _, ex := range res.Exits {
 			if ex.Return == nil || st.ReturnsNil(ex.Return, ex.State) == "nonnil" {
 				continue
 			}
 			nOK++
-			if ex.State.Get("own") != "1" {
-				bad = "a successful path leaves the written edge's own hash without (stored hash XOR delta): the edge keeps a stale hash while its ancestors are updated"
+			switch got := xt.cell(ex.State); {
+			case got == "{D,H}":
+			case got == "?":
+				undec = "the value stored for the written edge is computed in a way the XOR evaluator cannot follow"
+			default:
+				bad = "a successful path leaves the written edge's own hash as " + xorWords(got) + " instead of (stored hash ^ delta): the edge keeps a stale hash while its ancestors are updated"
 			}
 			if ex.State.Get("hc") != "1" && ex.State.Get("a:sent") != "T" {
 				bad = "a successful path does not start the upward walk for a non-sentinel parent: ancestors keep a stale hash"
 			}
+		}
+		if bad == "" && undec != "" {
+			o.Undecided("%s", undec)
+			continue
 		}
 		switch {
 		case nOK == 0:
